@@ -142,7 +142,9 @@ pub fn generate(rng: &mut Rng, tier: Tier) -> Scenario {
     let mut preds: Vec<PredTruth> = Vec::new();
     let mut sigs: Vec<SigTruth> = Vec::new();
     let mut blobs: Vec<([u8; 32], Vec<u8>)> = Vec::new();
-    let garbage_gas = g.chance(15, 100);
+    // declared gas before estimation: 0, small garbage, or a stale huge value (then the
+    // sequential estimator's budget `max_gas_per_tx - max_gas(tx)` is exhausted: not roomy)
+    let garbage_gas = g.weighted(&[82, 15, 3]);
     for (i, sp) in specs.iter().enumerate() {
         let amount = if i == fee_payer { 10_000_000 } else { g.below(1_000_000) };
         let asset = if i == fee_payer || tx_kind != "script" || g.chance(7, 10) { base } else { alt };
@@ -175,7 +177,11 @@ pub fn generate(rng: &mut Rng, tier: Tier) -> Scenario {
                 };
                 let owner_ok = all_true || !g.chance(8, 100);
                 let owner = if owner_ok { Input::predicate_owner(&built.code) } else { addr(&mut g) };
-                let gas = if garbage_gas { g.below(3000) } else { 0 };
+                let gas = match garbage_gas {
+                    0 => 0,
+                    1 => g.below(3000),
+                    _ => params.max_gas_per_tx - g.below(1000),
+                };
                 let input = match kind {
                     InKind::Coin => Input::coin_predicate(utxo, owner, amount, asset, ptr, gas, built.code.clone(), built.data.clone()),
                     InKind::MsgCoin => {
@@ -392,8 +398,8 @@ pub fn generate(rng: &mut Rng, tier: Tier) -> Scenario {
     set_witnesses(&mut tx, ws);
 
     // ---- gas room
-    let mut gas_roomy = true;
-    if g.chance(8, 100) {
+    let mut gas_roomy = garbage_gas != 2;
+    if gas_roomy && g.chance(8, 100) {
         let cp = consensus_params(&params);
         let need = match &tx {
             Transaction::Script(t) => t.max_gas(cp.gas_costs(), cp.fee_params()),
